@@ -303,3 +303,73 @@ Definition fifo_quiesce (budget : option nat) (s : state) : fifo :=
 
 Definition fifo_result (budget : option nat) (s : state) : state * list chunk :=
   let r := fifo_quiesce budget s in (f_state r, rev (f_out r)).
+
+(* ------------------------------------------------------------------------------------------------
+   The connection around the senders: the transport's own paused state and the frames h2 holds
+   queued.  (Added when Connection.resume_writing began to flush.)
+
+   `tpaused`  what the transport itself believes (it called pause_writing() last).  The transport
+              calls resume_writing() / pause_writing() only on a change of this state.
+   `hq`       h2 holds outbound frames that were not handed to the transport: the RST_STREAM of a
+              `Stream.reset_nowait()` issued while write_ready was clear (reset_nowait writes only
+              `if self.connection.write_ready.is_set()`).  Such frames are not flow-controlled,
+              change no outbound window and wake nobody.  They leave h2 with the next
+              `data_to_send()`: the flush of resume_writing, the two flushes of data_received
+              (every peer frame), or the write of a sender's next DATA frame.
+   cop        the ops of `step`, plus
+     ResetAux   reset_nowait() on a stream of the connection that is NOT one of the senders (another
+                call being cancelled; resetting a sender's own stream ends that sender and is outside
+                C07)
+     ResumeP    the transport resumes and, from inside the write() of the flush in resume_writing,
+                pauses again (its buffer is still above the high-water mark).  Only possible when
+                there is something to write (hq); in Connection.resume_writing the order is
+                write_ready.set(); flush() -> write -> pause_writing() -> write_ready.clear(), i.e.
+                exactly [Resume; Pause]: the senders woken by set() are Ready, the flag ends clear. *)
+Record conn := mkConn { core : state; tpaused : bool; hq : bool }.
+
+Inductive cop :=
+| Op (o : op)
+| ResetAux
+| ResumeP.
+
+Definition is_frame_op (o : op) : bool :=
+  match o with WinStream _ _ | WinConn _ | SetInitWin _ | SetMaxFrame _ => true | _ => false end.
+
+Definition cstep (c : conn) (o : cop) : conn * list chunk :=
+  if broken (core c) then (c, []) else
+  match o with
+  | Op Pause =>
+      (* MemTransport / asyncio: pause_writing() is called only when the transport was not paused *)
+      if tpaused c then (c, []) else (mkConn (fst (step (core c) Pause)) true (hq c), [])
+  | Op Resume =>
+      if tpaused c then (mkConn (fst (step (core c) Resume)) false false, []) else (c, [])
+  | Op (Run i) =>
+      let (s1, out) := step (core c) (Run i) in
+      (mkConn s1 (tpaused c) (match out with [] => hq c | _ => false end), out)
+  | Op o =>                       (* a frame from the peer: data_received flushes *)
+      (mkConn (fst (step (core c) o)) (tpaused c) false, [])
+  | ResetAux =>
+      (* h2.reset_stream(); if write_ready.is_set(): transport.write(h2.data_to_send()) *)
+      (mkConn (core c) (tpaused c) (negb (wready (core c))), [])
+  | ResumeP =>
+      if tpaused c then
+        if hq c then (mkConn (fst (step (fst (step (core c) Resume)) Pause)) true false, [])
+        else (mkConn (fst (step (core c) Resume)) false false, [])
+      else (c, [])
+  end.
+
+Fixpoint crun (c : conn) (ops : list cop) : conn * list chunk :=
+  match ops with
+  | [] => (c, [])
+  | o :: r => let (c1, x1) := cstep c o in
+              let (c2, x2) := crun c1 r in (c2, x1 ++ x2)
+  end.
+
+Definition cinit (cfg : list (Z * Z)) (cw iw mf : Z) : conn := mkConn (init cfg cw iw mf) false false.
+
+(* FIFO run to quiescence on the connection; the only way write_ready changes inside it is the
+   transport pausing from inside a write() *)
+Definition cfifo (budget : option nat) (c : conn) : conn * list chunk :=
+  let (s1, out) := fifo_result budget (core c) in
+  (mkConn s1 (tpaused c || (wready (core c) && negb (wready s1)))
+          (match out with [] => hq c | _ => false end), out).
